@@ -74,6 +74,17 @@ func (pnf *PageNumberFinder) FindPagination(root *html.Node, pageURL *nurl.URL) 
 		return
 	}
 
+	// Links with "javascript:" URL are only kept as position holders for the page
+	// numbers, they are never a page that can be fetched.
+	defer func() {
+		if strings.HasPrefix(pagination.NextPage, "javascript:") {
+			pagination.NextPage = ""
+		}
+		if strings.HasPrefix(pagination.PrevPage, "javascript:") {
+			pagination.PrevPage = ""
+		}
+	}()
+
 	pagination.PrevPage = ""
 	pagination.NextPage = paramInfo.NextPagingURL
 
